@@ -558,3 +558,17 @@ Proof.
   - intros H x Hx. apply elem_of_list_In in Hx. apply elem_of_list_lookup in Hx as [i Hi]. unfold expired.
     apply Z.ltb_lt. apply (H (it_val x)). apply abs_lookup_Some; [exact Hnd|]. eauto.
 Qed.
+
+(* the executable invariant evaluated by the Run module on every recorded state is implied by the proved one *)
+Lemma binv_inv_b b : binv b -> inv_b b = true.
+Proof.
+  intros ((Hc & Hh) & Hnd & Hcap). unfold inv_b. rewrite !andb_true_iff. split; [split; [split|]|].
+  - unfold heap_ordered_b. apply forallb_forall. intros i Hi. apply in_seq in Hi. apply negb_true_iff.
+    destruct i as [|i].
+    + rewrite parent_0, less_pr by lia. lia.
+    + pose proof (parent_lt (S i) ltac:(lia)). rewrite less_pr by lia. pose proof (Hh (S i) ltac:(lia)). lia.
+  - unfold idx_coherent_b. apply forallb_forall. intros [i x] Hi. apply elem_of_list_In in Hi.
+    apply elem_of_lookup_imap in Hi as (j & y & [= -> ->] & Hj). apply Nat.eqb_eq. apply Hc. exact Hj.
+  - apply bool_decide_eq_true. exact Hnd.
+  - lia.
+Qed.
